@@ -531,3 +531,22 @@ impl<'db> ProvisionalStatus<'db> {
         matches!(self, ProvisionalStatus::Provisional { .. })
     }
 }
+
+/// Verification hook H3: plain-integer access to `IterationStamp` for differential testing.
+#[cfg(salsa_rs_salsa_verif)]
+pub(crate) mod verif_k {
+    use super::IterationStamp;
+
+    pub(crate) fn vk_stamp_from_raw(raw: u16) -> IterationStamp {
+        IterationStamp(raw)
+    }
+    pub(crate) fn vk_stamp_raw(stamp: IterationStamp) -> u16 {
+        stamp.0
+    }
+    pub(crate) fn vk_stamp_new(iteration: u8, cancellation_count: u8) -> u16 {
+        IterationStamp::new(iteration, cancellation_count).0
+    }
+    pub(crate) fn vk_max_iterations() -> u8 {
+        super::MAX_ITERATIONS
+    }
+}
